@@ -43,8 +43,10 @@ Clauses(r) ==
                  \cup (IF ~r.verify /\ o.kind = "signed" THEN {"C04.SignedWithoutVerification"} ELSE {})
                  \cup (IF o.kind = "signed" /\ r.auth.checked /\ ~r.auth.good
                        THEN {"C04.AcceptedButGpgRejects"} ELSE {})
+                 \* (paths, and - where the harness supplies them - whole entries: tag, path, size, checksums)
                  \cup (IF o.kind = "signed" /\ r.auth.checked /\ r.auth.good
-                          /\ r.auth.epaths # o.epaths
+                          /\ (r.auth.epaths # o.epaths
+                              \/ ("esig" \in DOMAIN o /\ "esig" \in DOMAIN r.auth /\ r.auth.esig # o.esig))
                        THEN {"C04.NotTheAuthenticatedText"} ELSE {})
 
 Init == i \in 1..Len(Trace) /\ done = FALSE
